@@ -54,10 +54,18 @@ class L(object):
         if self.behaviour == 1:
             raise RuntimeError('listener %d raises' % self.idx)
         if self.behaviour == 2:
-            w.p.remove_event_listener(SUB, self)
+            w.p.remove_event_listener(SUB, self.handle())
         if self.behaviour == 3:
             nxt = w.listeners[(self.idx + 1) % len(w.listeners)]
-            w.p.remove_event_listener(SUB, nxt)
+            w.p.remove_event_listener(SUB, nxt.handle())
+
+    def on(self, data):
+        return self(data)
+
+    def handle(self):
+        """what is registered / removed: the callable object itself (even index) or its bound method `on`, which is a
+        fresh, equal-but-not-identical object at every mention (odd index)"""
+        return self if self.idx % 2 == 0 else self.on
 
 
 class World(object):
@@ -96,7 +104,7 @@ def _scenario(q, shape, forms, names, behaviours):
         for i in range(nl):
             li = L(i, behaviours[i], w)
             w.listeners.append(li)
-            w.p.add_event_listener(SUB, li)
+            w.p.add_event_listener(SUB, li.handle())
         sub_changes += 1
         _pump(w)
         cmd = None
@@ -203,7 +211,19 @@ def _sub_scenario(ops):
     with api.no_tracing():
         w.p._set_valid_events('CIRC STREAM HS_DESC ORCONN')
     logs = {'A': [], 'B': [], 'C': []}
-    cbs = {'A': logs['A'].append, 'B': logs['B'].append, 'C': logs['C'].append}
+
+    class Party(object):
+        """a listener given as a bound method: `party.on_event` is a fresh (equal, not identical) object at every mention"""
+        def __init__(self, log):
+            self.log = log
+
+        def on_event(self, data):
+            self.log.append(data)
+    parties = {'A': Party(logs['A']), 'C': Party(logs['C'])}
+    stored_b = logs['B'].append       # B: one stored callable
+
+    def cb_of(k):
+        return stored_b if k == 'B' else parties[k].on_event
     reg = {'A': False, 'B': False, 'C': False}
     answered = 0
     want_events = {'A': 0, 'B': 0, 'C': 0}
@@ -214,23 +234,23 @@ def _sub_scenario(ops):
                 k = 'AB'[op]
                 if reg[k]:
                     continue
-                w.p.add_event_listener('CIRC', cbs[k])
+                w.p.add_event_listener('CIRC', cb_of(k))
                 reg[k] = True
             elif op in (2, 3):
                 k = 'AB'[op - 2]
                 if not reg[k]:
                     continue
-                w.p.remove_event_listener('CIRC', cbs[k])
+                w.p.remove_event_listener('CIRC', cb_of(k))
                 reg[k] = False
             elif op == 4:
                 if reg['C']:
                     continue
-                w.p.add_event_listener('STREAM', cbs['C'])
+                w.p.add_event_listener('STREAM', cb_of('C'))
                 reg['C'] = True
             elif op == 5:
                 if not reg['C']:
                     continue
-                w.p.remove_event_listener('STREAM', cbs['C'])
+                w.p.remove_event_listener('STREAM', cb_of('C'))
                 reg['C'] = False
             elif op == 6:
                 lines = b''.join(w.t.chunks).split(b'\r\n')[:-1]
